@@ -87,6 +87,7 @@ structure AlasUpdate where
   severity : String
   refs : List String
   pkgs : List AlasPkg
+  issued : String := ""   -- `issued date="…"` as canonical time ("" = absent)
 deriving Repr
 
 /-- `versionString`: `[epoch:]version-release`, the epoch omitted when "" or "0". -/
@@ -98,7 +99,7 @@ def alasVersion (p : AlasPkg) : String :=
 def awsParse (sev : String → Nat) (updater dist : String) (ups : List AlasUpdate) : List Vuln :=
   ups.flatMap fun u => u.pkgs.map fun p =>
     { updater := updater, name := u.id, desc := u.desc, links := " ".intercalate u.refs,
-      sev := u.severity, nsev := sev u.severity, dist := dist, archOp := 1,
+      sev := u.severity, nsev := sev u.severity, dist := dist, archOp := 1, issued := u.issued,
       hasPkg := true, pkgName := p.name, pkgKind := "binary", pkgArch := p.arch, fixed := alasVersion p }
 
 end ClairModel.Feeds
